@@ -21,7 +21,7 @@ namespace Tahoe.Storage
 open Tahoe.Base.File
 
 inductive Err where
-  | badWriteEnabler | dataTooLarge | noSpace | indexError | unknownVersion | assertFail
+  | badWriteEnabler | dataTooLarge | noSpace | indexError | unknownVersion | assertFail | structError
   deriving DecidableEq, Repr
 
 def Err.toString : Err → String
@@ -31,6 +31,7 @@ def Err.toString : Err → String
   | .indexError => "IndexError"
   | .unknownVersion => "UnknownVersion"
   | .assertFail => "AssertionError"
+  | .structError => "StructError"
 
 /-- container schema version: v1 stores lease secrets in cleartext, v2 stores `blake2b secret` -/
 inductive Schema where
